@@ -34,7 +34,9 @@ type Tape struct {
 	Reads   []TapeRead // every Read call
 	FailAt  int        // read index at which to fail (-1 never)
 	MaxRead int        // >0: a Read call hands out at most this many bytes (short reads without an error are legal for an io.Reader)
+	Stutter int        // >0: every Stutter-th Read call hands out nothing and no error — (0, nil), legal for an io.Reader and absorbed by io.ReadFull — never twice in a row
 	Yield   func(what string)
+	calls   int
 	// Passthrough records the real CSPRNG instead of generating.
 	Passthrough io.Reader
 }
@@ -56,6 +58,14 @@ func (t *Tape) Read(p []byte) (int, error) {
 		t.Reads = append(t.Reads, TapeRead{len(t.Out), n})
 		t.Out = append(t.Out, p[:n]...)
 		return n, err
+	}
+	t.calls++
+	if t.Stutter > 0 && len(p) > 0 && t.calls%t.Stutter == 0 {
+		if t.Stutter == 1 {
+			t.Stutter = 2 // (every call would never end)
+		}
+		t.Reads = append(t.Reads, TapeRead{len(t.Out), 0})
+		return 0, nil
 	}
 	if t.MaxRead > 0 && len(p) > t.MaxRead {
 		p = p[:t.MaxRead]
